@@ -18,7 +18,7 @@ class World:
         s.ex.gobj['@__libc_single_threaded'] = lst.base
         s.lst = lst
         s.ex.install_globals(s.st)
-        s.vars = {}; s._layouts = {}
+        s.vars = {}; s._layouts = {}; s._glay = None
         S = mod.types[SUPPORT_T]; s.sup_offs, s.sup_size, _ = S.layout(mod)
         G = mod.types[GRID_T]; s.grid_size = G.size(mod)
 
@@ -53,16 +53,58 @@ class World:
         ex.poke(st, ctrl, 8, uc, 4); ex.poke(st, ctrl, 12, bv(1, 32), 4)
         return dict(name=name, vec=vec, data=data, ctrl=ctrl, n=nv, pts=pts, uc=uc, dbase=dbase)
 
+    def grid_layout(s):
+        """Where the shared_ptr sits inside Grid<double> (normally offset 0 of a 16-byte object) and which bytes belong to
+        members this harness does not know; their initial values are those of a freshly constructed grid."""
+        if s._glay is not None: return s._glay
+        G = s.ex.deref(NamedTy(GRID_T)); offs, size, _ = G.layout(s.mod); names = [repr(x) for x in G.fields]
+        try: isp = [i for i, n in enumerate(names) if 'shared_ptr' in n][0]
+        except IndexError: raise EngineError('Grid layout not understood: fields %s' % names)
+        extra = []; pos = 0
+        if offs[isp] > 0: extra.append((0, offs[isp]))
+        if offs[isp] + 16 < size: extra.append((offs[isp] + 16, size))
+        lay = dict(size=size, sp=offs[isp], extra=extra, template={})
+        s._glay = lay
+        if extra and '@w_mk_grid2' in s.mod.funcs:
+            W2 = World(s.mod, 2); mem = W2.out('mem', size)
+            try:
+                outs = W2.ex.run('@w_mk_grid2', [bv(mem.base)], W2.st)
+            except (Violation, EngineError):
+                outs = []
+            if len(outs) == 1 and outs[0].kind == 'ret':
+                o = outs[0].st.objs[mem.id]
+                for a, b in extra:
+                    for k in range(a, b):
+                        v = z3.simplify(z3.Select(o.arr, bv(k)))
+                        if z3.is_bv_value(v): lay['template'][k] = v.as_long()
+        return lay
+
+    def lay_grid_at(s, obj, off, grid):
+        lay = s.grid_layout()
+        s.ex.poke(s.st, obj, off + lay['sp'], bv(grid['vec'].base)); s.ex.poke(s.st, obj, off + lay['sp'] + 8, bv(grid['ctrl'].base))
+        for k, b in lay['template'].items(): obj.arr = z3.Store(obj.arr, bv(off + k), bv(b, 8))
+
     def mk_grid_obj(s, name, grid):
-        o = s.st.alloc(s.grid_size, name, 'input')
-        s.ex.poke(s.st, o, 0, bv(grid['vec'].base)); s.ex.poke(s.st, o, 8, bv(grid['ctrl'].base))
+        o = s.st.alloc(s.grid_layout()['size'], name, 'input')
+        s.lay_grid_at(o, 0, grid)
         return o
+
+    def mk_generator(s, name, grid, knots):
+        """A BSplineGenerator<double>: {Grid, std::vector<double> knots}; layout from the module's struct type."""
+        T = s.mod.types.get('%"class.bspline::BSplineGenerator"')
+        if T is None: raise EngineError('no BSplineGenerator type in the module')
+        offs, size, _ = T.layout(s.mod)
+        gen = s.st.alloc(size, name, 'input'); kn = s.st.alloc(8 * len(knots), name + '_knots', 'input')
+        s.lay_grid_at(gen, offs[0], grid)
+        s.ex.poke(s.st, gen, offs[1], bv(kn.base)); s.ex.poke(s.st, gen, offs[1] + 8, bv(kn.base + 8 * len(knots))); s.ex.poke(s.st, gen, offs[1] + 16, bv(kn.base + 8 * len(knots)))
+        for i, k in enumerate(knots): s.ex.poke(s.st, kn, 8 * i, k)
+        return gen
 
     def mk_support(s, name, grid, start=None, end=None, invariant=True):
         ex, st = s.ex, s.st
         sup = st.alloc(s.sup_size, name, 'input')
         start = start if start is not None else s.var(name + '_start'); end = end if end is not None else s.var(name + '_end')
-        ex.poke(st, sup, s.sup_offs[0], bv(grid['vec'].base)); ex.poke(st, sup, s.sup_offs[0] + 8, bv(grid['ctrl'].base))
+        s.lay_grid_at(sup, s.sup_offs[0], grid)
         ex.poke(st, sup, s.sup_offs[1], start); ex.poke(st, sup, s.sup_offs[2], end)
         if invariant: s.assume(valid_window(start, end, grid['n']))
         return dict(obj=sup, start=start, end=end, grid=grid, name=name)
@@ -119,7 +161,7 @@ class World:
         coef = st.alloc(csz * max(1, s.nmax - 1), name + '_coefficients', kind); sp = st.alloc(lay['size'], name, kind)
         nint = z3.If(z3.UGE(end - start, 2), end - start - 1, bv(0)); coef.lsize = csz * nint
         so, vo = lay['sup'], lay['vec']
-        ex.poke(st, sp, so + s.sup_offs[0], bv(grid['vec'].base)); ex.poke(st, sp, so + s.sup_offs[0] + 8, bv(grid['ctrl'].base))
+        s.lay_grid_at(sp, so + s.sup_offs[0], grid)
         ex.poke(st, sp, so + s.sup_offs[1], start); ex.poke(st, sp, so + s.sup_offs[2], end)
         ex.poke(st, sp, vo, bv(coef.base)); ex.poke(st, sp, vo + 8, bv(coef.base) + csz * nint); ex.poke(st, sp, vo + 16, bv(coef.base) + csz * nint)
         for k, b in (lay['template'] or {}).items(): sp.arr = z3.Store(sp.arr, bv(k), bv(b, 8))
@@ -131,7 +173,8 @@ class World:
 
     def read_support(s, st, obj_id):
         o = st.objs[obj_id]
-        return (s.ex.peek(st, o, s.sup_offs[0]), s.ex.peek(st, o, s.sup_offs[0] + 8), s.ex.peek(st, o, s.sup_offs[1]), s.ex.peek(st, o, s.sup_offs[2]))
+        sp = s.sup_offs[0] + s.grid_layout()['sp']
+        return (s.ex.peek(st, o, sp), s.ex.peek(st, o, sp + 8), s.ex.peek(st, o, s.sup_offs[1]), s.ex.peek(st, o, s.sup_offs[2]))
 
 
 def valid_window(start, end, n):
